@@ -602,3 +602,69 @@ Definition expected_trace (c : cfg) (hs : handlers) (tg : rtarget) (ps : list pa
   s_trace (snd (spec_run c hs (sst_init tg) ps)).
 Definition expected_outcome (c : cfg) (hs : handlers) (tg : rtarget) (ps : list packet) : option outcome :=
   fst (spec_run c hs (sst_init tg) ps).
+
+(* ======================================================================================
+   A compressed block as several frames (C03 extension)
+   A server may cut the encoding of one block anywhere and send every piece as a frame of its
+   own, each with its own method (ClickHouse cuts at max_compress_block_size); the pieces are
+   what compress.Reader hands to the decoder one after the other.
+   ====================================================================================== *)
+Section ServerFrames.
+  Variable H : bytes -> N * N.
+  Variable comp : method -> bytes -> option bytes.
+
+  (* the frames of one block, in order: method and payload of each *)
+  Fixpoint encode_frames (l : list (method * bytes)) : option bytes :=
+    match l with
+    | [] => Some []
+    | (m, d) :: l' =>
+      match compress_frame H comp m d, encode_frames l' with
+      | inr f, Some r => Some (f ++ r)
+      | _, _ => None
+      end
+    end.
+
+  (* cutting a block after the given numbers of bytes; the last frame takes what is left *)
+  Fixpoint cut_frames (sp : list (method * nat)) (lastm : method) (b : bytes) : list (method * bytes) :=
+    match sp with
+    | [] => [(lastm, b)]
+    | (m, n) :: sp' => (m, firstn n b) :: cut_frames sp' lastm (skipn n b)
+    end.
+
+  (* how the block of one packet is cut (ignored unless the packet is a compressed block) *)
+  Definition framing := (list (method * nat) * method)%type.
+
+  Definition encode_block_packet_fr (c : cfg) (k : bkind) (info : block_info) (nrows : N) (cols : list col)
+             (fr : framing) : option bytes :=
+    match encode_block (c_build c) (c_rev c) info nrows cols with
+    | None => None
+    | Some body =>
+      let payload :=
+        if c_comp c && compressible (Z.to_N (bkind_code k))
+        then encode_frames (cut_frames (fst fr) (snd fr) body)
+        else Some body in
+      match payload with
+      | None => None
+      | Some pl =>
+        Some (code_byte (bkind_code k) ++
+              (if gate (c_rev c) FeatureTempTables then put_str [] else []) ++ pl)
+      end
+    end.
+
+  Definition encode_packet_fr (c : cfg) (p : packet) (fr : framing) : option bytes :=
+    match p with
+    | PBlock k info nrows cols => encode_block_packet_fr c k info nrows cols fr
+    | _ => encode_packet H comp MNone c p
+    end.
+
+  (* the script with one framing per packet (missing ones: a single frame, method None) *)
+  Fixpoint encode_packets_fr (c : cfg) (ps : list packet) (frs : list framing) : option bytes :=
+    match ps with
+    | [] => Some []
+    | p :: ps' =>
+      match encode_packet_fr c p (hd ([], MNone) frs), encode_packets_fr c ps' (tl frs) with
+      | Some a, Some b => Some (a ++ b)
+      | _, _ => None
+      end
+    end.
+End ServerFrames.
